@@ -63,7 +63,9 @@ var props = map[string]propSpec{
 		{Pkg: "tls", Fn: "VerifC05NodeIdPath3", Validate: 8, MustReach: []string{"gate-passed", "rejected"}, Panics: true, ThoroughOnly: true},
 	}, Assumptions: with("the certificate-minting tail after the gate is cut (storage returns a sentinel when the roots are loaded); it runs in C02/C04"), Explanation: "GenerateServerCertificates verification gate over both lookup paths, 0..3 records in any order and grouping, nonce and client-state signatures chosen independently"},
 	"C06": {Harnesses: []harnessSpec{
-		{Pkg: "registration", Fn: "VerifC06SingleUse", Validate: 4},
+		{Pkg: "registration", Fn: "VerifC06SingleUse", Validate: 8, MustReach: []string{"first-use-enrolled", "first-use-refused"}},
+		{Pkg: "registration", Fn: "VerifC06ExistingKey", Validate: 4, MustReach: []string{"enrolled", "refused"}},
+		{Pkg: "registration", Fn: "VerifC06Tamper", Validate: 8, MustReach: []string{"enrolled", "refused"}},
 	}, Assumptions: with(), Explanation: "activation token create/use/re-use from SSA"},
 	"C07": {Harnesses: []harnessSpec{
 		{Pkg: "protocol", Fn: "VerifC07RogueServer", Validate: 0},
